@@ -13,6 +13,7 @@ pub mod c02;
 pub mod c03;
 pub mod c06;
 pub mod c07;
+pub mod c08;
 pub mod c09;
 pub mod c10;
 pub mod c11;
@@ -243,6 +244,7 @@ pub fn run(id: &str, tier: Tier, rest: &[String]) -> i32 {
         "C03" => c03::run(tier, part),
         "C06" => c06::run(tier, part),
         "C07" => c07::run(tier, part),
+        "C08" => c08::run(tier, part),
         "C09" => c09::run(tier, part),
         "C10" => c10::run(tier, part),
         "C11" => c11::run(tier, part),
@@ -280,6 +282,7 @@ pub fn replay(file: &str) -> i32 {
         "C07" => c07::replay(tier, &doc["replay"]),
         "C17" => c17::replay(tier, &doc["replay"]),
         "C18" => c18::replay(&doc["replay"]),
+        "C08" => c08::replay(tier, &doc["replay"]),
         "C09" => c09::replay(tier, &doc["replay"]),
         "C10" => c10::replay(tier, &doc["replay"]),
         "C11" => c11::replay(&doc["replay"]),
